@@ -232,10 +232,45 @@ def case_prog(case, K=2):
     return run_case(fn, replay, signature=sig, sample=dict(program=str(prog)[:300], nb_cores=N, two_blocks=second is not None), key=str(case), max_paths=300)
 
 
+def case_config(case):
+    """The accelerator context built from a system description (the real snaxc.tools.config_parser.parse_config on a
+    contract stub of the absent `dacite` package): every registered name resolves to an accelerator of its own kind -
+    the dispatch rules look the accelerator of a region up by name."""
+    import os
+    import sys
+
+    order = case
+
+    def fn():
+        stub = os.path.join(os.path.dirname(os.path.dirname(os.path.abspath(__file__))), "stubs")
+        if stub not in sys.path:
+            sys.path.insert(0, stub)
+        from snaxc.tools.config_parser import parse_config
+
+        gemmx = {"gemmx": {"m": 8, "n": 8, "k": 8, "streamers": [{"temporal_dims": 6, "spatial_dims": [8, 8]}, {"temporal_dims": 3, "spatial_dims": [8, 8]},
+                                                               {"temporal_dims": 3, "spatial_dims": [8, 8]}, {"temporal_dims": 3, "spatial_dims": [8, 8]},
+                                                               {"temporal_dims": 3, "spatial_dims": [8, 8]}]}}
+        accs = {"gemmx": gemmx, "alu": {"snax_alu": None}, "xdma": {"snax_xdma": None}, "dm": {"data_mover": None}}
+        cfg = {"memory": {"name": "L3", "start": 0x80000000, "size": 1 << 30},
+               "clusters": [{"memory": {"name": "L1", "start": 0x10000000, "size": 1 << 17},
+                             "cores": [{"accelerators": [accs[a] for a in core]} for core in order]}]}
+        ctx = parse_config(cfg)
+        want = {"gemmx": ("snax_gemmx", "SNAXGEMMXAccelerator"), "alu": ("snax_alu", "SNAXAluAccelerator"), "xdma": ("snax_xdma", "SNAXXDMAAccelerator")}
+        for core in order:
+            for a in core:
+                if a in want:
+                    nm, cls = want[a]
+                    got = type(ctx.get_acc(nm)).__name__
+                    eng().oblige("config:registered_name_resolves_to_its_own_accelerator", got == cls, dict(name=nm, resolves_to=got, cores=str(order)))
+        eng().oblige("explored", True)
+
+    return run_case(fn, lambda f: replay_pinned(fn, f), signature=lambda f, v: f["name"], sample=dict(cores=str(order)), key=str(case))
+
+
 def run(chk):
     quick = chk.tier == "quick"
     rnd = random.Random(chk.seed)
-    chk.functions = ["snaxc.transforms.dispatch_regions.DispatchRegionsRewriter/dispatcher/InsertFunctionDeclaration", "snaxc.util.dispatching_rules.dispatch_to_dm/dispatch_to_compute"]
+    chk.functions = ["snaxc.tools.config_parser.parse_config (on a contract stub of dacite)", "snaxc.transforms.dispatch_regions.DispatchRegionsRewriter/dispatcher/InsertFunctionDeclaration", "snaxc.util.dispatching_rules.dispatch_to_dm/dispatch_to_compute"]
     chk.explanation = (
         "Translation validation of dispatch-regions{nb_cores=N}: generated functions (nested scf.for/scf.if, memref.copy, linalg.generic, "
         "dart streaming regions on snax_gemmx and snax_xdma, other ops, adjacent and separated, optionally two blocks) are run before and "
@@ -254,5 +289,7 @@ def run(chk):
         second = g.block(1, rnd.randint(1, 3)) if rnd.random() < 0.15 else None
         cases.append((prog, second, rnd.choice((2, 2, 3, 4, 8))))
     chk.add_results("dispatch_vs_filtered_original", pmap(case_prog, cases, chunks=4))
+    chk.add_results("accelerator_context_from_system_description", pmap(case_config, [(("gemmx",), ("xdma",)), (("xdma",), ("gemmx",)), (("alu",), ("dm",)), (("gemmx", "alu"), ("xdma",)),
+                                                                                      (("alu",), ("gemmx",), ("xdma",))]))
     chk.bounds = dict(programs=len(cases), nb_cores=[2, 3, 4, 8], nesting="<=2", unroll_K=2)
     chk.outside = ["function-constant-pinning on multi-block functions", "ops other than the listed kinds"]
